@@ -233,6 +233,7 @@ theorem step_refines {st : St} {sp : Spec.S} (r : R st sp) (op : Op) (a : Adm sp
   | save w s o =>
     show R (save st w s o).1 (Spec.step sp (.save w s o)).1 ∧ outOk (.zip (save st w s o).2) (.zip _)
     exact ⟨R_save r w s o a, trivial⟩
+  | forget n rels => exact absurd a (by intro h; exact h)
 
 /-- admissibility of a whole history, along the plain-map run -/
 def AdmAll : Spec.S → List Op → Prop
